@@ -61,6 +61,8 @@ theorem recentPure_takeLast (dir : Dir) (limit : Nat) (ns : List String) (acc : 
 theorem getRecent_eq (dir : Dir) (limit : Nat) :
     getRecentWALRecords dir (limit : Int) = .ok (takeLast limit (allRecords dir)) := by
   unfold getRecentWALRecords
+  rw [if_neg (by omega)]
+  unfold recentFrom
   rw [recentLoop_eq]
   simp only [ok_bind]
   have h := recentPure_takeLast dir limit (walFiles dir).reverse []
